@@ -135,7 +135,7 @@ def correspondence(run, tasks, results, spec_rows, thorough):
     import logging
     logging.disable(logging.CRITICAL)
     rng = random.Random(run.seed + 18)
-    budget = dict(srt=8_000_000, vtt=8_000_000, scc=6_000_000, stl=6_000_000) if thorough else dict(srt=1_200_000, vtt=1_200_000, scc=1_000_000, stl=1_000_000)
+    budget = dict(srt=8_000_000, vtt=8_000_000, scc=6_000_000, stl=6_000_000) if thorough else dict(srt=1_000_000, vtt=1_000_000, scc=800_000, stl=800_000)
     C.clean_cases("Cases_C18_")
     sh = {
         "srt": Shards("srt", "text * list Z * Z * list Z", ["srt_case"]),
